@@ -194,8 +194,8 @@ func (h *c42Run) histories() {
 			// the direct oracle applies to serial service too
 			if !q.Fail {
 				wc, wb := c42Expect(s, q)
-				if code != wc || body != wb {
-					h.fail(c42Classify(body, wb, prev), "response of a request served alone (warm cache) differs from the reference computed from the request",
+				if code != wc || c42Head(body) != wb {
+					h.fail(c42Classify(c42Head(body), wb, prev), "response of a request served alone (warm cache) differs from the reference computed from the request",
 						fmt.Sprintf("history=%d step=%d %s || service:\n%s", hi, step, q.describe(s), s.source()), fmt.Sprintf("%d %s", code, body), fmt.Sprintf("%d %s", wc, wb))
 				}
 			}
